@@ -450,7 +450,7 @@ func init() {
 			ruleTransitionIsOneCriticalSection(c)
 			ruleMembersGetTheNewStatus(c)
 		})
-		c.Group("C19/transition-guards", "tickDR: →async, async→sync_recover and sync_recover→sync are called only under their stated conditions; UpdateConfig rolls its config back when the switch fails", func() { ruleTransitionGuards(c); ruleFailedStoreCount(c) })
+		c.Group("C19/transition-guards", "tickDR: →async, async→sync_recover and sync_recover→sync are called only under their stated conditions; UpdateConfig rolls its config back when the switch fails", func() { ruleTransitionGuards(c); ruleFailedStoreCount(c); ruleUpdateConfigGuards(c) })
 		c.Group("C19/recovery", "entering sync_recover resets the cursor; the cursor advances only past contiguous regions reporting integrity under the current state id; progress 1.0 only after the whole key space", func() { ruleRecoveryAtoms(c); ruleStatusReachesCache(c) })
 	})
 }
@@ -620,4 +620,43 @@ func ruleMembersGetTheNewStatus(c *Ctx) {
 	if n == 0 {
 		c.Undec(rule, "ReplicateFileToAllMembers in "+fnName(fn), "found", P.pos(fn.Pos()), "")
 	}
+}
+
+// ruleUpdateConfigGuards: an online switch of the replication mode starts the
+// state machine from the right end: a recovery (sync_recover, with a fresh id
+// and a reset cursor) when the *served* mode is majority and the *new* mode is
+// dr-auto-sync. With the two configurations mixed up the switch falls through
+// to a plain assignment and the zero-valued state — "sync", id 0 — is served.
+func ruleUpdateConfigGuards(c *Ctx) {
+	P := c.P
+	rule := c.Prop + "/transition-guards"
+	fn := P.Method(rep, "ModeManager", "UpdateConfig")
+	cfgF := P.Field(rep, "ModeManager", "config")
+	modeF := P.Field("server/config", "ReplicationModeConfig", "ReplicationMode")
+	recover := F(P.Method(rep, "ModeManager", "drSwitchToSyncRecoverWithLock"))
+	// the mode field read from the served configuration (m.config) / from the parameter
+	ofServed := func(v ssa.Value) bool {
+		u, ok := strip(v).(*ssa.UnOp)
+		if !ok || fieldOfAddr(u.X) != modeF {
+			return false
+		}
+		fa, ok := u.X.(*ssa.FieldAddr)
+		return ok && fieldOfAddr(fa.X) == cfgF
+	}
+	ofNew := func(v ssa.Value) bool {
+		u, ok := strip(v).(*ssa.UnOp)
+		if !ok || fieldOfAddr(u.X) != modeF {
+			return false
+		}
+		fa, ok := u.X.(*ssa.FieldAddr)
+		if !ok || fieldOfAddr(fa.X) == cfgF {
+			return false
+		}
+		// a field of the parameter (spilled into a local)
+		return derivesFrom(fa.X, func(w ssa.Value) bool { _, isA := w.(*ssa.Alloc); return isA }, 2) || len(fn.Params) > 1
+	}
+	servedMajority := guardRel("served mode == majority", "==", ofServed, isConstStr("majority"))
+	newDR := guardRel("new mode == dr-auto-sync", "==", ofNew, isConstStr("dr-auto-sync"))
+	c.need(rule, fn, "call drSwitchToSyncRecoverWithLock", instrCallMatcher(recover), []Ev{servedMajority, newDR}, all,
+		"the recovery is started when the served mode is majority and the new mode is dr-auto-sync")
 }
